@@ -15,7 +15,7 @@ for kind in mutants benign; do
     rsync -a --exclude=.git /repo/ "$d/"
     if ! (cd "$d" && patch -s -p1 < "$OLDPWD/$p"); then echo "PATCH-FAILED $name"; fail=1; rm -rf "$d"; continue; fi
     for prop in $props; do
-      out=$(bin/govc check --repo "$d" --prop "$prop" --verif /tmp/verif-selftest-out 2>&1)
+      out=$(bin/govc check --repo "$d" --prop "$prop" --outroot /tmp/verif-selftest-out 2>&1)
       nviol=$(echo "$out" | grep -c '^VIOLATION')
       nrep=$(echo "$out" | grep '^VIOLATION' | grep -vc 'no-failing-input-found')
       if [ "$kind" = mutants ]; then
